@@ -77,16 +77,22 @@ Effects(en, op, a) ==
      [] op = "declare_base" ->
            << Member("Base_type", en[a[1]].of + 1, 0, Cardinality(MembersOf(en, en[a[1]].of + 1, "Base_type"))) >>
 
+RgOps == {"make_unit", "make_module", "make_module_unit", "make_subregion", "make_class", "make_union", "make_namespace", "make_closure",
+        "make_enum", "make_block", "make_mapping", "make_lambda", "make_requires", "make_function_morphism", "make_where",
+        "new_handler", "add_param", "add_enumerator", "declare_base"}
 Admissible(en, op, a) ==
-   CASE op \in {"make_unit", "make_module"} -> TRUE
-     [] op = "make_module_unit" -> a[1] \in 1..Len(en) /\ en[a[1]].c = "Module"
-     \* (a Block with lvl = 1 is the body of a handler: it has no handlers of its own)
-     [] op = "new_handler" -> a[1] \in 1..Len(en) /\ en[a[1]].c = "Block" /\ en[a[1]].lvl = 0
-     [] op = "add_param" -> a[1] \in 1..Len(en) /\ en[a[1]].c \in {"Mapping", "Lambda", "Requires", "Morphism"}
-     [] op = "add_enumerator" -> a[1] \in 1..Len(en) /\ en[a[1]].c = "Enum"
-     [] op = "declare_base" -> a[1] \in 1..Len(en) /\ en[a[1]].c = "Class"
-     [] op = "make_subregion" -> IsRegion(en, a[1]) /\ en[a[1]].lvl = 0
-     [] OTHER -> IsRegion(en, a[1])
+   /\ op \in RgOps                           \* (anything else in a recorded history -- a crash, say -- is not a step)
+   /\ op \in {"make_unit", "make_module"} \/ Len(a) >= 1
+   /\ op \in {"make_mapping", "make_lambda", "make_requires", "make_function_morphism"} => Len(a) >= 2
+   /\ CASE op \in {"make_unit", "make_module"} -> TRUE
+        [] op = "make_module_unit" -> a[1] \in 1..Len(en) /\ en[a[1]].c = "Module"
+        \* (a Block with lvl = 1 is the body of a handler: it has no handlers of its own)
+        [] op = "new_handler" -> a[1] \in 1..Len(en) /\ en[a[1]].c = "Block" /\ en[a[1]].lvl = 0
+        [] op = "add_param" -> a[1] \in 1..Len(en) /\ en[a[1]].c \in {"Mapping", "Lambda", "Requires", "Morphism"}
+        [] op = "add_enumerator" -> a[1] \in 1..Len(en) /\ en[a[1]].c = "Enum"
+        [] op = "declare_base" -> a[1] \in 1..Len(en) /\ en[a[1]].c = "Class"
+        [] op = "make_subregion" -> IsRegion(en, a[1]) /\ en[a[1]].lvl = 0
+        [] OTHER -> IsRegion(en, a[1])
 
 Call(op, a) ==
    /\ Admissible(ent, op, a)
